@@ -29,6 +29,32 @@ Theorem c40_failsafe_accept_all_paths : forall c raw mangle filter e p,
 Proof. exact failsafe_accept_all_paths. Qed.
 Print Assumptions c40_failsafe_accept_all_paths.
 
+(* 1'. responses of failsafe connections on the untracked path (raw table, before conntrack: any conntrack state):
+   a packet FROM an outbound failsafe port arriving on a non-workload interface is not dropped at raw PREROUTING, a
+   packet from an inbound failsafe port leaving on a non-workload interface is not dropped at raw OUTPUT.
+   (fs_resp_ok is Spec.v's clause; raw_hep_ok: untracked endpoint chains start with the failsafe jump.) *)
+Theorem c40_failsafe_responses_untracked : forall c raw e p,
+  cfg_ok c -> N.land (c_wg_mark c) (c_scr0 c) = 0 ->
+  (forall nb, In nb (static_raw c) -> lookup raw (fst nb) = Some (snd nb)) ->
+  disp_ok raw (raw_hep_ok CH_FS_IN) CH_FROM_HEP = true -> disp_ok raw (raw_hep_ok CH_FS_OUT) CH_TO_HEP = true ->
+  pk_ver p = c_ver c ->
+  fs_resp_ok c raw e p = true.
+Proof. exact failsafe_responses_untracked. Qed.
+Print Assumptions c40_failsafe_responses_untracked.
+
+(* 0. hook wiring: the kernel chains start with the jump to Felix's top-level chain (Model.hook_wiring, compared by
+   every run with the calls the REAL setUpIptablesNormal makes on recording tables); such a kernel chain takes Felix's
+   terminal verdict, and only a packet Felix's chain returns reaches the rest of the kernel chain. *)
+Theorem c40_kernel_chain_first_rule : forall cs e top body rest f p,
+  lookup cs top = Some body ->
+  run (S f) cs e (R [] (AJump top) :: rest) p =
+  match run f cs e body p with
+  | RFall p' | RReturn p' => run (S f) cs e rest p'
+  | r => r
+  end.
+Proof. exact kernel_chain_first_rule. Qed.
+Print Assumptions c40_kernel_chain_first_rule.
+
 (* the hypothesis "conntrack state not INVALID" is necessary *)
 Theorem c40_failsafe_invalid_ct_refuted :
   exists c filter e p, cfg_ok c
